@@ -60,13 +60,14 @@ func ZZ_C16_sequential() {
 		_, err := Execute(e, nil, "ch = make(chan int64, 1); ch <- \"abc\"")
 		zz.Assert(err != nil, "C16.unconvertible-send-is-error")
 	case 3:
-		r, err := Execute(e, nil, mk+"ch <- A; close(ch); x = <-ch; y = <-ch; [x, y == nil]")
+		// (receive *expressions*: `y = <-ch` is the receive statement)
+		r, err := Execute(e, nil, mk+"ch <- A; close(ch); [<-ch, <-ch]")
 		l, ok := r.([]interface{})
 		zz.Assert(err == nil && ok && len(l) == 2, "C16.closed/runs")
 		if ok && len(l) == 2 {
 			x, isInt := l[0].(int64)
 			zz.Assert(isInt && x == a, "C16.closed/buffered-item-still-delivered")
-			zz.Assert(l[1] == true, "C16.closed/drained-receive-yields-nil")
+			zz.Assert(l[1] == nil, "C16.closed/drained-receive-yields-nil")
 		}
 	case 4:
 		r, err := Execute(e, nil, mk+"close(ch); v = A; v, ok = <-ch; [v, ok]")
@@ -145,6 +146,7 @@ func zzPipeline(n, capacity, stages, maxSwitches int) {
 	zz.Budget(3000000)
 	zz.UnwindIsViolation("terminates.C16.pipeline")
 	if zz.Symbolic() {
+		zz.SchedChannelsOnly(true)
 		zz.SchedExplore(true, maxSwitches)
 	}
 	r, err := Execute(e, nil, src)
@@ -164,7 +166,7 @@ func zzPipeline(n, capacity, stages, maxSwitches int) {
 }
 
 func ZZ_C16_pipeline_quick() {
-	zzPipeline(zz.Choose(3), zz.Choose(2), zz.Choose(2), 4)
+	zzPipeline(zz.Choose(3), zz.Choose(2), zz.Choose(2), 3)
 }
 
 func ZZ_C16_pipeline() {
